@@ -10,8 +10,11 @@ Arguments are `List Char`.  Core Lean only (linked into the native driver).
                  matching — active even with `allow_abbrev=False` —, negative-number and
                  space rules);
 * `viewOf`     = what the classified argument does in `consume_optional` for the kinds of
-                 option the table contains (value option, ignored option with a required /
-                 an optional argument), `--`;
+                 option the table contains (value option — `append`, or CBI's `_UndefineAction`
+                 of `-U` —, ignored option with a required / an optional argument), `--`;
+* `Cfg.apply`  = the action of a value option: `_AppendAction`, or `_UndefineAction.__call__`
+                 (the definitions of the named macro made so far are removed from the list; a
+                 non-string element — the `[]` that `-D--` stores — makes `re.split` raise `TypeError`);
 * `run`        = the consume loop as a left-to-right state machine with one pending request
                  (argparse classifies every argument up front and independently of its
                  neighbours, so the index-based loop over the `O`/`A`/`-` pattern string
@@ -43,9 +46,15 @@ def destOfName : Arg → Dest
   | ['i','n','c','l','u','d','e','_','f','i','l','e','s'] => .includeFiles
   | _ => .other
 
+/-- the action of an option that takes one value -/
+inductive Act
+  | append (d : Dest)  -- `action="append"`
+  | undef (d : Dest)   -- `action=_UndefineAction` (`-U`): remove the definitions of the named macro from the list
+deriving DecidableEq, Repr, Inhabited
+
 /-- what an option does when it fires, as far as the observed lists go -/
 inductive Kind
-  | value (d : Dest)   -- `action="append"`, one argument
+  | value (a : Act)    -- `action="append"` / `action=_UndefineAction`, one argument
   | ignoreReq          -- `store` into an unobserved attribute, one argument (`-o`)
   | ignoreOpt          -- `store` into an unobserved attribute, `nargs="?"` (`-O`, `-g`, `-c`)
   | unsupported
@@ -63,7 +72,8 @@ def observed (d : Option Arg) : Bool :=
 
 def rowKind (r : ArgTable.Row) : Kind :=
   match r.action, r.nargs, r.dest with
-  | .append, .none, some d => .value (destOfName d)
+  | .append, .none, some d => .value (.append (destOfName d))
+  | .undefine, .none, some d => .value (.undef (destOfName d))
   | .store, .none, d => if observed d then .unsupported else .ignoreReq
   | .store, .opt, d => if observed d then .unsupported else .ignoreOpt
   | _, _, _ => .unsupported
@@ -178,8 +188,8 @@ inductive View
   | positional                     -- pattern 'A'
   | unknown                        -- unknown optional → extras
   | ambiguous                      -- parser.error → SystemExit(2)
-  | valueSep (d : Dest)            -- value option, value = next argument
-  | valueAtt (d : Dest) (v : Val)  -- value attached (`-DX`, or via `=`)
+  | valueSep (a : Act)             -- value option, value = next argument
+  | valueAtt (a : Act) (v : Val)   -- value attached (`-DX`, `-UX`, or via `=`)
   | ignoreReq                      -- bare `-o`
   | ignoreOpt                      -- bare `-O` / `-g` / `-c`
   | ignoreAtt                      -- `-O2`, `-ofile`, `-g3`, `-ccbin`, `-o=x`
@@ -196,13 +206,13 @@ def viewOfCls : Cls → View
   | .ambiguous => .ambiguous
   | .opt o none =>
     match o.kind with
-    | .value d => .valueSep d
+    | .value a => .valueSep a
     | .ignoreReq => .ignoreReq
     | .ignoreOpt => .ignoreOpt
     | .unsupported => .unsupported
   | .opt o (some e) =>
     match o.kind with
-    | .value d => .valueAtt d (toVal e)
+    | .value a => .valueAtt a (toVal e)
     | .ignoreReq => .ignoreAtt
     | .ignoreOpt => .ignoreAtt
     | .unsupported => .unsupported
@@ -231,28 +241,63 @@ def Cfg.get (c : Cfg) : Dest → List Val
   | .includeFiles => c.includeFiles
   | .other => []
 
+def Cfg.set (c : Cfg) : Dest → List Val → Cfg
+  | .defines, l => { c with defines := l }
+  | .includePaths, l => { c with includePaths := l }
+  | .systemPaths, l => { c with systemPaths := l }
+  | .includeFiles, l => { c with includeFiles := l }
+  | .other, _ => c
+
+/-- `re.split(r"[=(]", d, 1)[0]`: the macro name of a `-D` value (the stop characters are read from the code) -/
+def macroName (d : Arg) : Arg := d.takeWhile fun c => !ArgTable.undefineStops.contains c
+
+/-- `[d for d in defines if re.split(r"[=(]", d, 1)[0] != value]`; `none` = `TypeError` (an element that is not a
+string).  A value that is not a string (`-U--` hands over `[]`) is different from every name. -/
+def undefList (v : Val) : List Val → Option (List Val)
+  | [] => some []
+  | .emptyList :: _ => none
+  | .str d :: r =>
+    match undefList v r with
+    | none => none
+    | some k => some (if Val.str (macroName d) = v then k else .str d :: k)
+
 inductive PErr
   | argumentError      -- argparse.ArgumentError ("expected one argument")
   | systemExit         -- parser.error(): ambiguous option
+  | typeError          -- `_UndefineAction`: `re.split` on a list element that is not a string
   | unsupported        -- the table / settings left the modelled subset
 deriving DecidableEq, Repr, Inhabited
+
+/-- the action of a value option: `_AppendAction.__call__` / `_UndefineAction.__call__` -/
+def Cfg.apply (c : Cfg) : Act → Val → Except PErr Cfg
+  | .append d, v => .ok (c.add d v)
+  | .undef d, v =>
+    match undefList v (c.get d) with
+    | some l => .ok (c.set d l)
+    | none => .error .typeError
 
 /-- what the loop is waiting for -/
 inductive Pend
   | idle
-  | need (d : Dest)    -- a value option wants the next argument (must be 'A')
+  | need (a : Act)     -- a value option wants the next argument (must be 'A')
   | needIgn            -- `-o` wants the next argument
   | optIgn             -- `-O`/`-g`/`-c` take the next argument if it is 'A'
   | afterDD            -- after `--`: everything is positional
 deriving DecidableEq, Repr, Inhabited
+
+/-- take the action, then wait for nothing -/
+def applyIdle (c : Cfg) (a : Act) (w : Val) : Except PErr (Pend × Cfg) :=
+  match c.apply a w with
+  | .ok c' => .ok (.idle, c')
+  | .error e => .error e
 
 def idleStep (v : View) (c : Cfg) : Except PErr (Pend × Cfg) :=
   match v with
   | .ddash => .ok (.afterDD, c)
   | .positional | .unknown | .ignoreAtt => .ok (.idle, c)
   | .ambiguous => .error .systemExit
-  | .valueAtt d w => .ok (.idle, c.add d w)
-  | .valueSep d => .ok (.need d, c)
+  | .valueAtt a w => applyIdle c a w
+  | .valueSep a => .ok (.need a, c)
   | .ignoreReq => .ok (.needIgn, c)
   | .ignoreOpt => .ok (.optIgn, c)
   | .unsupported => .error .unsupported
@@ -260,7 +305,7 @@ def idleStep (v : View) (c : Cfg) : Except PErr (Pend × Cfg) :=
 def step (t : List Opt) (p : Pend) (c : Cfg) (a : Arg) : Except PErr (Pend × Cfg) :=
   match p with
   | .afterDD => .ok (.afterDD, c)
-  | .need d => if viewOf t a = .positional then .ok (.idle, c.add d (.str a)) else .error .argumentError
+  | .need act => if viewOf t a = .positional then applyIdle c act (.str a) else .error .argumentError
   | .needIgn => if viewOf t a = .positional then .ok (.idle, c) else .error .argumentError
   | .optIgn => if viewOf t a = .positional then .ok (.idle, c) else idleStep (viewOf t a) c
   | .idle => idleStep (viewOf t a) c
